@@ -56,6 +56,23 @@ def gen(i, R, tier):
         ops.append({"op": {"yml": "set_yml", "cli": "set_cli", "gitignore": "set_gitignore"}[ch], "patterns": pats})
     ops.append({"op": "scan", "nonce": G.nonce(rng), "spelling": "dot"})
     paths = sorted(placed)
+    if rng.random() < 0.35 and paths:
+        # the tree moves on after the scan (pre-commit use: check runs on edited files while an
+        # older cache is lying around); check must agree with a scan of the tree as it is now
+        ops.append({"op": "advance_clock", "seconds": rng.choice((0, 5, 3600))})
+        for _ in range(rng.randint(1, 3)):
+            p = rng.choice(paths)
+            lang = G.lang_of_path(p) or "py"
+            r = rng.random()
+            if r < 0.6:
+                op = {"op": "write", "path": p, "content": G.pick_content(rng, lang, 0.1, 0.6)}
+                if rng.random() < 0.5:
+                    op["mtime_delta"] = -rng.choice((2, 3600, 86400 * 400))
+                ops.append(op)
+            elif r < 0.8 and len(paths) > 1:
+                ops.append({"op": "rename", "src": rng.choice(paths), "dst": p, "overwrite": True})
+            else:
+                ops.append({"op": "corrupt", "path": p, "kind": rng.choice(("dup_line", "lost_line")), "arg": rng.randrange(0, 60)})
     targets = []
     # every way of reaching: relative file, each directory above it, '.', absolute root/dir
     for p in rng.sample(paths, min(len(paths), rng.randint(2, 6))):
